@@ -521,6 +521,159 @@ let run_case (t : string list) : string =
       in
       let l = Stdlib.List.rev !log in
       Stdlib.String.concat " " outs ^ " | " ^ (if l = [] then "-" else Stdlib.String.concat " " l)
+  | "apm" :: ranks :: conns :: "|" :: ops ->
+      (* ranks = own,p0,p1,... ; conns = k:peer:o|i,... ; ops as the activepeers driver *)
+      let ranks = Array.of_list (Stdlib.List.map int_of_string (Stdlib.String.split_on_char ',' ranks)) in
+      let own = n_of_int ranks.(0) in
+      let prank p = n_of_int ranks.(p + 1) in
+      let pidx r =
+        let r = int_of_n r in
+        let res = ref (-1) in
+        Array.iteri (fun i x -> if i > 0 && x = r then res := i - 1) ranks;
+        !res
+      in
+      let conns =
+        Array.of_list
+          (Stdlib.List.filter_map
+             (fun c ->
+               match Stdlib.String.split_on_char ':' c with
+               | [ _; p; o ] ->
+                   Some (int_of_string p, if o = "o" then ActivePeers.Outbound else ActivePeers.Inbound)
+               | _ -> None)
+             (Stdlib.String.split_on_char ',' conns))
+      in
+      let st = ref ActivePeers.empty in
+      let seen_events = ref 0 in
+      let fmt_listing l =
+        let l = Stdlib.List.sort compare (Stdlib.List.map pidx l) in
+        "[" ^ Stdlib.String.concat "," (Stdlib.List.map string_of_int l) ^ "]"
+      in
+      let out =
+        Stdlib.List.map
+          (fun o ->
+            let kind = o.[0] in
+            let rest = Stdlib.String.sub o 1 (Stdlib.String.length o - 1) in
+            let op =
+              match kind with
+              | 'A' ->
+                  let k = int_of_string rest in
+                  let p, orig = conns.(k) in
+                  ActivePeers.Add (own, prank p, n_of_int k, orig)
+              | 'R' ->
+                  (match Stdlib.String.split_on_char ':' rest with
+                   | [ p; r ] -> ActivePeers.Remove (prank (int_of_string p), n_of_string r)
+                   | _ -> failwith "bad R")
+              | 'S' ->
+                  (match Stdlib.String.split_on_char ':' rest with
+                   | [ k; r ] ->
+                       let k = int_of_string k in
+                       let p, _ = conns.(k) in
+                       ActivePeers.RemoveStable (prank p, n_of_int k, n_of_string r)
+                   | _ -> failwith "bad S")
+              | 'U' -> ActivePeers.Subscribe
+              | 'P' -> ActivePeers.Peers
+              | _ -> failwith "bad op"
+            in
+            let st', res = ActivePeers.step !st op in
+            st := st';
+            let r =
+              match res with
+              | ActivePeers.Kept -> "K"
+              | ActivePeers.Dropped -> "D"
+              | ActivePeers.Done -> "ok"
+              | ActivePeers.Listing l ->
+                  if kind = 'U' then "snap" ^ fmt_listing l
+                  else
+                    "["
+                    ^ Stdlib.String.concat ","
+                        (Stdlib.List.map
+                           (fun (p, c) -> Printf.sprintf "%d:%d" p c)
+                           (Stdlib.List.sort compare
+                              (Stdlib.List.map (fun (p, (id, _)) -> (pidx p, int_of_n id)) st'.ActivePeers.conns)))
+                    ^ "]"
+            in
+            let log = st'.ActivePeers.log in
+            let n = Stdlib.List.length log in
+            let fresh = Stdlib.List.filteri (fun i _ -> i >= !seen_events) log in
+            seen_events := n;
+            let ev =
+              Stdlib.String.concat ","
+                (Stdlib.List.map
+                   (fun e ->
+                     match e with
+                     | ActivePeers.NewPeer p -> Printf.sprintf "+%d" (pidx p)
+                     | ActivePeers.LostPeer (p, r) -> Printf.sprintf "-%d:%s" (pidx p) (string_of_n r))
+                   fresh)
+            in
+            let cl =
+              Stdlib.List.sort_uniq compare (Stdlib.List.map int_of_n st'.ActivePeers.closed)
+            in
+            let entries =
+              Stdlib.List.sort compare
+                (Stdlib.List.map (fun (p, (id, _)) -> (pidx p, int_of_n id)) st'.ActivePeers.conns)
+            in
+            Printf.sprintf "%s=%s;ev=%s;cl=%s;L=[%s]" o r ev
+              (Stdlib.String.concat "," (Stdlib.List.map string_of_int cl))
+              (Stdlib.String.concat "," (Stdlib.List.map (fun (p, c) -> Printf.sprintf "%d:%d" p c) entries)))
+          ops
+      in
+      Stdlib.String.concat " " out
+  | [ "tb"; own; remote; e; n; _pos ] ->
+      let o s = if s = "i" then ActivePeers.Inbound else ActivePeers.Outbound in
+      if ActivePeers.tie_break (n_of_string own) (n_of_string remote) (o e) (o n) then "1" else "0"
+  | [ "md"; lt; sched ] ->
+      let lt = lt = "1" in
+      let parse l =
+        let n = if l.[1] = 'A' then MutualDial.NA else MutualDial.NB in
+        let c = if l.[2] = 'X' then MutualDial.CX else MutualDial.CY in
+        match l.[0] with
+        | 'R' -> MutualDial.Ready (n, c)
+        | 'F' -> MutualDial.Fail (n, c)
+        | _ -> MutualDial.Notice (n, c)
+      in
+      let labels = Stdlib.List.filter (fun l -> l <> "") (Stdlib.String.split_on_char ',' sched) in
+      let pre = ref [] in
+      let s =
+        Stdlib.List.fold_left
+          (fun s l ->
+            let lab = parse l in
+            pre := (l ^ ":" ^ if MutualDial.enabled s lab then "1" else "0") :: !pre;
+            MutualDial.do_step lt s lab)
+          MutualDial.init labels
+      in
+      let e x = match x.MutualDial.entry with None -> "-" | Some MutualDial.CX -> "X" | Some MutualDial.CY -> "Y" in
+      let b x = if x then 0 else 1 in
+      let sa = s.MutualDial.sa and sb = s.MutualDial.sb in
+      Printf.sprintf "A=%s B=%s nA=%d nB=%d evA=%s evB=%s openX=%d%d openY=%d%d pre=%s" (e sa) (e sb)
+        (if sa.MutualDial.entry = None then 0 else 1)
+        (if sb.MutualDial.entry = None then 0 else 1)
+        (string_of_n sa.MutualDial.nevents) (string_of_n sb.MutualDial.nevents)
+        (b (sa.MutualDial.clX || sb.MutualDial.clX)) (b (sa.MutualDial.clX || sb.MutualDial.clX))
+        (b (sa.MutualDial.clY || sb.MutualDial.clY)) (b (sa.MutualDial.clY || sb.MutualDial.clY))
+        (Stdlib.String.concat "," (Stdlib.List.rev !pre))
+  | [ "mdreach"; lt ] ->
+      (* all maximal schedules of the mutual-dial system, as label lists *)
+      let lt = lt = "1" in
+      let lbl l =
+        let nn n = match n with MutualDial.NA -> "A" | MutualDial.NB -> "B" in
+        let cc c = match c with MutualDial.CX -> "X" | MutualDial.CY -> "Y" in
+        match l with
+        | MutualDial.Ready (n, c) -> "R" ^ nn n ^ cc c
+        | MutualDial.Fail (n, c) -> "F" ^ nn n ^ cc c
+        | MutualDial.Notice (n, c) -> "N" ^ nn n ^ cc c
+      in
+      let res = ref [] in
+      let rec go s acc =
+        let en = Stdlib.List.filter (fun l -> MutualDial.enabled s l) MutualDial.all_labels in
+        if en = [] then
+          res :=
+            (Stdlib.String.concat "," (Stdlib.List.rev acc)
+             ^ (if MutualDial.converged lt s then ":ok" else ":BAD"))
+            :: !res
+        else Stdlib.List.iter (fun l -> go (MutualDial.do_step lt s l) (lbl l :: acc)) en
+      in
+      go MutualDial.init [];
+      Stdlib.String.concat " " (Stdlib.List.rev !res)
   | [ "version"; v ] ->
       (match Wire.version_new (n_of_string v) with
        | Base.Ok v -> "OK " ^ string_of_n v
